@@ -319,7 +319,14 @@ class Parser:
             self.statement = None
 
     def parse_statement(self) -> None:
-        _parse_result = self.yacc.parse(self.statement, lexer=self.lexer)
+        try:
+            _parse_result = self.yacc.parse(self.statement, lexer=self.lexer)
+        except SimpleDDLParserException:
+            # a symbol unknown to the lexer makes the statement unparseable: like a
+            # syntax error it is skipped in silent mode and raised otherwise
+            if not self.silent:
+                raise
+            _parse_result = None
         if _parse_result:
             self.tables.append(_parse_result)
 
